@@ -355,6 +355,9 @@ class PyModel:
             r = L.simp(Val.dref(obj))
             if not ex.branch(self.hashable(key), 'hashable'):
                 ex.raise_('TypeError', 'unhashable')
+            # m[k] on a mapping the host supplied runs the mapping's own __getitem__ / __missing__ (a defaultdict inserts):
+            # recorded with what is known about the key at this point
+            ex.event('dict_subscript', r, key, ex.is_fresh(r), ex.check_sat(z3.Not(ex.heap.dhas(r, key))) == z3.unsat)
             if ex.branch(ex.heap.dhas(r, key), 'dict-has'):
                 ex.assume(ex.heap.dlen(r) >= 1)
                 tbl = getattr(ex, 'global_tables', {}).get(r.get_id())
